@@ -1,7 +1,7 @@
 """C11 - heat exchangers, consumers and circulation pumps report consistent heat duties."""
 from pvmon import netgen
 from pvmon.monitors import Obs, mon_c11
-from pvmon.props.common import rng_for, run_thermal
+from pvmon.props.common import suite_cases, run_suite_case, rng_for, run_thermal
 
 MANIFEST = {
     "text": "Held (up to the listed known finding) on every returned thermal solution of generated district-heating loops: Q = mdot * mean cp * temperature drop for every exchanger and consumer, the two prescribed consumer quantities equal their set-points whenever the mass flow is prescribed or the run is bidirectional, and the circulation pump's reported heat closes the loop balance within the heat-capacity discretisation.",
@@ -22,8 +22,10 @@ REQUIRED_COUNTERS = ["exchanger_duties", "exchanger_duties_negative", "consumer_
 
 
 def gen_cases(tier, seed):
-    return [{"seed": seed, "i": i, "mode": "bidirectional" if i % 2 else "sequential", "numba": bool((i // 2) % 2),
-             "source": ["cpp", "cpm", "grid", "cpp"][(i // 4) % 4]} for i in range(CONFIG[tier]["cases"])]
+    _cases = [{"seed": seed, "i": i, "mode": "bidirectional" if i % 2 else "sequential", "numba": bool((i // 2) % 2), "source": ["cpp", "cpm", "grid", "cpp"][(i // 4) % 4]} for i in range(CONFIG[tier]["cases"])]
+    if tier == "thorough":
+        _cases = list(_cases) + suite_cases()
+    return _cases
 
 
 def make(case):
@@ -34,6 +36,12 @@ def make(case):
 
 
 def run_case(case, ctx):
+    if case.get("kind") == "repo_suite":
+        obs = Obs()
+        n = run_suite_case(case, "C11", obs)
+        rec = {"nontrivial": n > 0, "sample": {"repo_suite_part": case["part"], "pipeflow_calls_observed": n}, "evaluations": max(n, 1)}
+        rec.update(obs.record())
+        return rec
     spec, opts = make(case)
     net = netgen.build(spec)
     obs = Obs()
